@@ -28,6 +28,7 @@ pub fn build_input(case: &GCase, bnf: &Bnf, earley: &Earley, ii: usize) -> Inp {
     let toks = gen::tokens_for(bnf, tape, 10);
     let mut c = Cursor::new(&tape.tape);
     let style = match ii % 3 {
+        _ if case.lines && ii % 2 == 1 => LayoutStyle::Lines,
         0 => LayoutStyle::Unicode,
         1 => LayoutStyle::Ascii,
         _ => LayoutStyle::Minimal,
